@@ -154,6 +154,16 @@ def gen_td(rng, smooth):
     delays = [(q, pv()) for q in pick(rng.choice([0, 0, 1, 3]))]
     wl = lambda: rng.choice(["0.25", "0.5", "1", "2", "4", "0.333", "1.5", "0.021", "3.75", "0.75"])   # noqa
     warps = [(q, wl()) for q in pick(rng.choice([0, 1, 2, 3, 5]))]
+    if rng.random() < 0.1:
+        # a CROWDED warp: six to ten events (BPM changes, a stop, a delay) strictly inside one warp - they all share one time
+        start = rng.choice([0, 2, 5]) * Q + rng.choice([0, 12]) * TICK
+        n = rng.randint(6, 10)
+        inner = [start + (k + 1) * rng.choice([1, 2, 6]) * TICK for k in range(n)]
+        inner = sorted(set(inner))
+        bpms = [(0, bpms[0][1])] + [(q, bv()) for q in inner]
+        stops = [(inner[len(inner) // 2], pv())] if rng.random() < 0.5 else []
+        delays = [(inner[1], pv())] if rng.random() < 0.4 else []
+        warps = [(start, str((inner[-1] - start) // Q + 1))]
     return TD(bpms, stops, delays, warps, off)
 
 
